@@ -40,6 +40,7 @@ var propImports = map[string][][]string{
 	"C14": {{"C13", "PRIORITY"}},
 	"C16": {{"C17", "UNIT"}},
 	"C17": {{"C16", "ATTR", "MASK"}},
+	"C19": {{"C05", "ENVKEY"}},
 	"C20": {{"C16", "PRED"}},
 }
 
